@@ -13,7 +13,19 @@ import argparse, hashlib, json, os, random, re, shutil, subprocess, sys, threadi
 V = os.path.dirname(os.path.dirname(os.path.abspath(__file__)))
 PROPS = {"tape.rs": ["C12", "C01", "C07"], "machine.rs": ["C01", "C07", "C02"], "rules.rs": ["C11", "C03"],
          "prover.rs": ["C02", "C03"], "reason.rs": ["C04", "C15"], "segment.rs": ["C05", "C15"], "cps.rs": ["C06", "C15"],
-         "macros.rs": ["C08", "C09", "C16"], "tree.rs": ["C10"], "graph.rs": ["C14"], "instrs.rs": ["C13", "C04", "C06"]}
+         "macros.rs": ["C08", "C09", "C16"], "tree.rs": ["C10"], "graph.rs": ["C14"], "instrs.rs": ["C13", "C04", "C06"],
+         # Python side (files of /repo/tm): `--files num.py,...`
+         "num.py": ["C18"], "tape.py": ["C17"], "prover.py": ["C17"], "rules.py": ["C17"], "machine.py": ["C17"]}
+PY_OPS = [(r" < ", " <= "), (r" <= ", " < "), (r" > ", " >= "), (r" >= ", " > "), (r" == ", " != "), (r" != ", " == "),
+          (r" \+ ", " - "), (r" - ", " + "), (r" and ", " or "), (r" or ", " and "), (r" \* ", " + "), (r" // ", " * "),
+          (r" % ", " // "), (r"\bcontinue\b", "break"), (r" is None", " is not None"), (r" is not None", " is None"),
+          (r"\bmin\(", "max("), (r"\bmax\(", "min("), (r" - 1\b", " - 0"), (r" \+ 1\b", " + 0"), (r"\bTrue\b", "False"),
+          (r"\bFalse\b", "True"), (r"\bnot ", ""), (r"return 0\b", "return 1"), (r"return 1\b", "return 0")]
+PY_SKIP = ("#", "assert", "import", "from ", "raise", "class ", "def ", "@", "type ", chr(39) * 3, chr(34) * 3)
+
+
+def src_path(root, fn):
+    return os.path.join(root, "tm" if fn.endswith(".py") else "src", fn)
 OPS = [(r" < ", " <= "), (r" <= ", " < "), (r" > ", " >= "), (r" >= ", " > "), (r" == ", " != "), (r" != ", " == "),
        (r" \+ ", " - "), (r" - ", " + "), (r" && ", " || "), (r" \|\| ", " && "), (r" \+= ", " -= "), (r" -= ", " += "),
        (r"\bcontinue;", "break;"), (r"\.is_some\(\)", ".is_none()"), (r"\.is_none\(\)", ".is_some()"),
@@ -24,17 +36,23 @@ OPS = [(r" < ", " <= "), (r" <= ", " < "), (r" > ", " >= "), (r" >= ", " > "), (
 def candidates(files):
     out = []
     for fn in files:
-        path = os.path.join("/repo/src", fn)
+        path = src_path("/repo", fn)
         lines = open(path).read().split("\n")
         in_test = False
+        py = fn.endswith(".py")
         for i, l in enumerate(lines):
             if "#[cfg(test)]" in l:
                 in_test = True          # test code is at the end of these files
             st = l.strip()
-            if in_test or st.startswith("//") or st.startswith("#[") or st.startswith("assert") or st.startswith("use "):
-                continue
-            code = l.split("//")[0]
-            for pat, rep in OPS:
+            if py:
+                if not st or st.startswith(PY_SKIP) or "no-cover" in l or "isinstance" in l:
+                    continue
+                code = l.split("#")[0]
+            else:
+                if in_test or st.startswith("//") or st.startswith("#[") or st.startswith("assert") or st.startswith("use "):
+                    continue
+                code = l.split("//")[0]
+            for pat, rep in (PY_OPS if py else OPS):
                 for m in re.finditer(pat, code):
                     out.append((fn, i, m.start(), m.end(), rep, l))
     return out
@@ -61,8 +79,8 @@ def work(k, queue, results, lock):
                 break
             mut = queue.pop()
         fn, i, a, b, rep, line = mut
-        path = os.path.join(repo, "src", fn)
-        orig = open(os.path.join("/repo/src", fn)).read()
+        path = src_path(repo, fn)
+        orig = open(src_path("/repo", fn)).read()
         lines = orig.split("\n")
         lines[i] = lines[i][:a] + rep + lines[i][b:]
         open(path, "w").write("\n".join(lines))
@@ -92,8 +110,13 @@ def work(k, queue, results, lock):
         rec["check_wall_s"] = round(time.time() - t, 1)
         if verdict == "missed":
             t = time.time()
-            rc, out = sh("cargo test --offline --no-fail-fast 2>&1 | grep -E 'test result|FAILED|error' | head -20", cwd=repo,
-                         env={"CARGO_TARGET_DIR": os.path.join(base, "target"), "CARGO_NET_OFFLINE": "true"}, timeout=3000)
+            if fn.endswith(".py"):
+                rc, out = sh(os.path.expanduser("~/.pyenv/versions/3.12.1/bin/python3") + " -m unittest test.test_num test.test_tape test.test_rules test.test_program 2>&1 | tail -4",
+                             cwd=repo, timeout=3000)
+                out = out.replace("OK", "test result: ok").replace("FAILED (", "FAILED; failed; (")
+            else:
+                rc, out = sh("cargo test --offline --no-fail-fast 2>&1 | grep -E 'test result|FAILED|error' | head -20", cwd=repo,
+                             env={"CARGO_TARGET_DIR": os.path.join(base, "target"), "CARGO_NET_OFFLINE": "true"}, timeout=3000)
             rec["suite"] = out.strip()[-300:]
             rec["suite_wall_s"] = round(time.time() - t, 1)
             if "error" in out and "test result" not in out:
